@@ -143,11 +143,20 @@ def construct(name, snap, const):
         p = cls(data, snap["ar_order"], NSIG=const.get("NSIG"), threshold=const.get("threshold"),
                 criteria=const.get("eig_criteria", "aic"), **common)
     elif name == "MultiTapering":
-        p = cls(data, NW=const.get("NW"), k=const.get("k"), method=const.get("method", "adapt"), **common)
+        ev = {}
+        if const.get("e") is not None:
+            import numpy as _np
+            ev = {"e": _np.array(const["e"], dtype=float), "v": _np.array(const["v"], dtype=float)}   # fresh copies
+        p = cls(data, NW=const.get("NW"), k=const.get("k"), method=const.get("method", "adapt"), **ev, **common)
     else:
         raise KeyError(name)
     if name not in FOURIER and snap.get("detrend") is not None:
         p.detrend = snap["detrend"]
+    if name == "pcorrelogram" and const.get("data_y") is not None:
+        # cross-correlogram: data_y is a per-run constant (it is not one of the attributes the statement
+        # lists, and the constructor does not take it)
+        from .common import dec_array
+        p.data_y = dec_array(const["data_y"])
     return p
 
 
